@@ -294,6 +294,135 @@ func buildPlans(thorough bool) []plan {
 			}})
 		}
 	}
+	// 4b. frames in flight while the server is closing: a frame that makes the server begin closing,
+	// then frames written right behind it without waiting (the read loop still dispatches them), then
+	// the harness's sentinel; every prefix x trigger x body of length <= 2, and random longer bodies
+	for _, p := range protos {
+		st, sp := startType(p), stopType(p)
+		init := msg("init", 0, "none", "")
+		prefixes := [][]Label{{}, {init}, {init, msg(st, 1, "doc", "sub")}}
+		triggers := []Label{msg("init", 0, "reject", ""), msg("terminate", 0, "none", "")}
+		if p == protoTWS {
+			triggers = append(triggers, Label{Kind: lMalformed}, msg(st, 3, "junk", ""))
+		}
+		body := []Label{
+			msg(st, 1, "doc", "query"), msg(st, 1, "doc", "sub"), msg(st, 2, "doc", "sub"), msg(sp, 1, "none", ""),
+			msg("ping", 0, "none", ""), msg(st, 2, "doc", "invalid"), init,
+		}
+		add := func(pre []Label, pipe []Label) {
+			sc := Script{Proto: p, Labels: append([]Label(nil), pre...), Pipe: append([]Label(nil), pipe...), End: "client-close", Barrier: true}
+			plans = append(plans, plan{mode: "pipe", make: func(*rng.R) Script { return sc }})
+		}
+		for _, pre := range prefixes {
+			for _, tr := range triggers {
+				if tr.Pay == "junk" && len(pre) == 0 {
+					continue // an undecodable payload is a protocol error only on an initialised connection
+				}
+				add(pre, []Label{tr})
+				for _, a := range body {
+					add(pre, []Label{tr, a})
+					for _, b := range body {
+						add(pre, []Label{tr, a, b})
+					}
+				}
+			}
+		}
+	}
+	nPipe := 300
+	if thorough {
+		nPipe = 6000
+	}
+	for i := 0; i < nPipe; i++ {
+		plans = append(plans, plan{mode: "pipe", make: func(r *rng.R) Script {
+			p := rng.Pick(r, protos)
+			var ls []Label
+			if r.Chance(3, 4) {
+				ls = append(ls, Label{Kind: lMsg, Type: "init", Pay: "none", Variant: r.Intn(1 << 16)})
+			}
+			for n := r.Intn(4); n > 0; n-- {
+				ls = append(ls, randomLabel(r, p))
+			}
+			var tr Label
+			switch x := r.Intn(10); {
+			case x < 4:
+				tr = msg("init", 0, "reject", "")
+			case x < 7 || p == protoWS:
+				tr = msg("terminate", 0, "none", "")
+			case x < 8:
+				tr = Label{Kind: lMalformed}
+			case x < 9:
+				tr = msg("other", 0, "none", "")
+			default:
+				tr = msg("other", 0, "none", "")
+				if len(ls) > 0 && ls[0].Type == "init" {
+					tr = msg(startType(p), 3, "junk", "")
+				}
+			}
+			tr.Variant = r.Intn(1 << 16)
+			pipe := []Label{tr}
+			for n := r.Range(1, 8); n > 0; n-- {
+				l := randomLabel(r, p)
+				for l.Kind != lMsg && l.Kind != lMalformed {
+					l = randomLabel(r, p)
+				}
+				pipe = append(pipe, l)
+			}
+			return Script{Proto: p, Labels: ls, Pipe: pipe, End: "client-close", Barrier: true}
+		}})
+	}
+
+	// 4c. the application closes the connection while a handler call is in flight (the init callback,
+	// a resolver, a subscribe resolver blocked on the harness's gate); the gate opens after the write
+	// loop has given up waiting for the peer's close and has exited
+	for _, p := range protos {
+		st := startType(p)
+		init := msg("init", 0, "none", "")
+		subA := msg(st, 1, "doc", "sub")
+		type gs struct {
+			pre  []Label
+			gate Label
+		}
+		scripts := []gs{
+			// (a gated subscription uses an id no other label uses: a duplicate of a live id never reaches the resolver)
+			{[]Label{init}, msg(st, 7, "doc", "sub")},
+			{[]Label{init}, msg(st, 2, "doc", "query")},
+			{[]Label{init, subA}, msg(st, 7, "doc", "sub")},
+			{[]Label{init, subA, {Kind: lEmit, Src: 0}}, msg(st, 2, "doc", "query")},
+			{[]Label{init, subA, {Kind: lSrcEnd, Src: 0}}, msg(st, 1, "doc", "sub")}, // id reuse after the source ended
+			{[]Label{}, init},
+			{[]Label{init}, init},
+			{[]Label{msg(st, 1, "doc", "query")}, init},
+		}
+		for _, s := range scripts {
+			g := s.gate
+			sc := Script{Proto: p, Labels: s.pre, Gate: &g, End: "app-close", Barrier: true}
+			plans = append(plans, plan{mode: "gate", make: func(*rng.R) Script { return sc }})
+		}
+	}
+	nGate := 40
+	if thorough {
+		nGate = 1500
+	}
+	for i := 0; i < nGate; i++ {
+		plans = append(plans, plan{mode: "gate", make: func(r *rng.R) Script {
+			p := rng.Pick(r, protos)
+			ls := []Label{{Kind: lMsg, Type: "init", Pay: "none", Variant: r.Intn(1 << 16)}}
+			for n := r.Intn(6); n > 0; n-- {
+				ls = append(ls, randomLabel(r, p))
+			}
+			var g Label
+			switch r.Intn(5) {
+			case 0:
+				g = msg("init", 0, "none", "")
+			case 1, 2:
+				g = msg(startType(p), rng.Pick(r, []int{1, 2, 3}), "doc", "query")
+			default:
+				g = msg(startType(p), 7, "doc", "sub")
+			}
+			return Script{Proto: p, Labels: ls, Gate: &g, End: "app-close", Barrier: true}
+		}})
+	}
+
 	// 5. keep-alive periods: the conversation waits 15 s (+ margin) per tick label, so these few run
 	// beside the worker pool from the start and are handed out last
 	for _, p := range protos {
@@ -339,9 +468,13 @@ func caseSexp(mode string, sc Script, res Result) sexp.Node {
 	for i, s := range res.Stall {
 		stall[i] = sexp.Sym(s)
 	}
+	lenient := len(res.Labels)
+	if res.Lenient >= 0 && res.Lenient < lenient {
+		lenient = res.Lenient
+	}
 	return sexp.T("case", sexp.T("proto", sexp.Sym(proto)), sexp.T("mode", sexp.Sym(mode)),
 		sexp.T("labels", sexp.L(labels...)), sexp.T("obs", sexp.L(res.Obs...)), sexp.T("log", sexp.L(res.Log...)),
-		res.Final, sexp.T("stall", sexp.L(stall...)))
+		res.Final, sexp.T("stall", sexp.L(stall...)), sexp.T("lenient", sexp.Int(lenient)))
 }
 
 type outcome struct {
